@@ -24,12 +24,15 @@ abbrev join (sep : Nat) (xs : List Bytes) : Bytes := [sep].intercalate xs
 def hexDigit (n : Nat) : Char :=
   if n < 10 then Char.ofNat (48 + n) else Char.ofNat (87 + n)
 def toHex (b : Bytes) : String :=
+  if b.isEmpty then "-" else
   String.ofList (b.flatMap fun x => [hexDigit (x / 16 % 16), hexDigit (x % 16)])
 def hexVal (c : Char) : Option Nat :=
   if '0' ≤ c ∧ c ≤ '9' then some (c.toNat - 48)
   else if 'a' ≤ c ∧ c ≤ 'f' then some (c.toNat - 87)
   else if 'A' ≤ c ∧ c ≤ 'F' then some (c.toNat - 55) else none
+/-- "-" stands for the empty string in operation lines -/
 def ofHex (s : String) : Option Bytes :=
+  if s == "-" then some [] else
   let rec go : List Char → Option Bytes
     | [] => some []
     | a :: b :: rest => do
